@@ -1,8 +1,12 @@
-(* Correspondence judge for C16 (graph half): the case is an edge list in insertion order plus what
-   the real DirectedGraph answered. *)
-From JV Require Import Lib.Base Model.Graph Spec.GraphSpec.
+(* Correspondence judge for C16.  Two kinds of case:
+     GraphCase: an edge list in insertion order plus what the real DirectedGraph answered;
+     LinkCase : declarations + links in declaration order plus what the real parser did end to end
+                (link_arguments ... parse_object, instantiate_classes): outcome and the global event log. *)
+From JV Require Import Lib.Base Model.Graph Spec.GraphSpec Model.LinkOrder Spec.LinkSpec.
 
-Record case := { c_edges : list edge; c_obs : topo_out }.
+Inductive case :=
+| GraphCase (c_edges : list edge) (c_obs : topo_out)
+| LinkCase (c_decls : list decl) (c_links : list link) (c_obs : outcome * list event).
 
 Definition out_eqb (a b : topo_out) : bool :=
   match a, b with
@@ -11,9 +15,41 @@ Definition out_eqb (a b : topo_out) : bool :=
   | _, _ => false
   end.
 
+(* exceptions escaping instantiate_classes are compared by outcome only (the log stops somewhere inside) *)
+Definition obs_eqb (m o : outcome * list event) : bool :=
+  match fst m, fst o with
+  | OOk, OOk => list_eqb event_eqb (snd m) (snd o)
+  | OLinkErr j, OLinkErr k => Nat.eqb j k
+  | OExc, OExc => true
+  | _, _ => false
+  end.
+
+(* the harness convention the model relies on: link j targets parameter "l<j>" (one digit), ids are distinct *)
+Definition param_name (j : nat) : str := [108%N; N.of_nat (48 + j)].
+Fixpoint nodup_nat (l : list nat) : bool :=
+  match l with [] => true | x :: l' => negb (mem_nat x l') && nodup_nat l' end.
+Definition wf_links (ls : list link) : bool :=
+  nodup_nat (map l_id ls)
+  && forallb (fun l => Nat.ltb (l_id l) 10 && str_eqb (last (split_key (l_target l)) []) (param_name (l_id l))) ls.
+
+(* class 0 = inside the guards of the C16 link theorems;
+   class 1 = a component that is only a source of links encloses the target of another link (finding nested-target-order);
+   class 2 = a source nested in a class group feeds a target outside the group (finding source-under-group) *)
+Definition link_class (ds : list decl) (ls : list link) : N :=
+  if negb (enclosing_ok_all (components ds) ls) then 1%N
+  else if group_nested_source (components ds) ls then 2%N
+  else 0%N.
+
 Definition judge1 (c : case) : verdict :=
-  {| v_model := out_eqb (topo (build (c_edges c))) (c_obs c);
-     v_class := 0;
-     v_spec := spec_ok (c_edges c) (c_obs c) |}.
+  match c with
+  | GraphCase es obs =>
+      {| v_model := out_eqb (topo (build es)) obs;
+         v_class := 0;
+         v_spec := spec_ok es obs |}
+  | LinkCase ds ls obs =>
+      {| v_model := wf_links ls && obs_eqb (run ds ls) obs;
+         v_class := link_class ds ls;
+         v_spec := link_spec_ok ds ls obs |}
+  end.
 
 Definition judge (cs : list case) := judge_all judge1 cs.
